@@ -48,12 +48,33 @@ func main() {
 	m := hlib.StartModel(o.Model, "C17")
 	defer m.Close()
 
-	fakeCampaign(o, r, m)
-	spreadCampaign(o, r)
-	validateCampaign(o, r, m)
-	readMsgCampaign(o, r, m)
-	plainCampaign(o, r, m)
-	socketCampaign(o, r, m)
+	// C17_ONLY=<campaign,...> restricts a manual run to some campaigns (debugging aid; ./check never sets it).
+	only := os.Getenv("C17_ONLY")
+	want := func(name string) bool { return only == "" || strings.Contains(","+only+",", ","+name+",") }
+	if want("fake") {
+		fakeCampaign(o, r, m)
+	}
+	if want("spread") {
+		spreadCampaign(o, r)
+	}
+	if want("saturation") {
+		saturationCampaign(r)
+	}
+	if want("validate") {
+		validateCampaign(o, r, m)
+	}
+	if want("readmsg") {
+		readMsgCampaign(o, r, m)
+	}
+	if want("plain") {
+		plainCampaign(o, r, m)
+	}
+	if want("raw") {
+		rawCampaign(o, r, m)
+	}
+	if want("socket") {
+		socketCampaign(o, r, m)
+	}
 
 	r.ModelOps = r.Evaluations
 	r.Finish()
@@ -107,6 +128,11 @@ type sched struct {
 	Init []string `json:"init,omitempty"`
 	// RandTmpl: the health-check domain template contains ${RANDOM}.
 	RandTmpl bool `json:"rand_tmpl,omitempty"`
+	// Tmpl names another health-check domain template (see tmpls); QName and
+	// QType are the question of the schedule's queries ("" / 0: ab. A).
+	Tmpl  string `json:"tmpl,omitempty"`
+	QName string `json:"qname,omitempty"`
+	QType uint16 `json:"qtype,omitempty"`
 	Ops      []op `json:"ops"`
 }
 
@@ -118,7 +144,22 @@ func (s *sched) with(ops []op) *sched {
 	return &c
 }
 
+// tmpls are the health-check domain templates besides the two classic ones:
+// the optional field left empty (the probe asks for the root), the placeholder
+// alone, twice, upper case, and a template that is already fully qualified.
+var tmpls = map[string]string{
+	"root":    "",
+	"rndonly": "${RANDOM}",
+	"rnd2":    "${RANDOM}.x-${RANDOM}." + probeDomain,
+	"rndmid":  "x-${RANDOM}." + probeDomain,
+	"upper":   "PROBE.C17.Example",
+	"fqdn":    probeDomain + ".",
+}
+
 func (s *sched) tmpl() string {
+	if t, ok := tmpls[s.Tmpl]; ok {
+		return t
+	}
 	if s.RandTmpl {
 		return "${RANDOM}." + probeDomain
 	}
@@ -126,7 +167,75 @@ func (s *sched) tmpl() string {
 	return probeDomain
 }
 
-func isProbeName(name string) bool { return strings.HasSuffix(name, probeName) }
+func (s *sched) qname() string {
+	if s.QName != "" {
+		return s.QName
+	}
+
+	return queryName
+}
+
+func (s *sched) qtype() uint16 {
+	if s.QType != 0 {
+		return s.QType
+	}
+
+	return dns.TypeA
+}
+
+func isProbeName(name string) bool { return strings.HasSuffix(asciiLower(name), probeName) }
+
+func isHex(s string) bool {
+	for _, c := range s {
+		if !(c >= '0' && c <= '9' || c >= 'a' && c <= 'f') {
+			return false
+		}
+	}
+
+	return s != ""
+}
+
+// isProbeQ tells the schedule's health probes from its queries (the generator
+// keeps the query name out of the probe names' way).
+func (s *sched) isProbeQ(q dns.Question) bool {
+	switch s.Tmpl {
+	case "root":
+		return q.Name == "."
+	case "rndonly":
+		return strings.Count(q.Name, ".") == 1 && isHex(strings.TrimSuffix(q.Name, "."))
+	}
+
+	return isProbeName(q.Name)
+}
+
+// probeNameOK is the oracle's reading of HandlerConfig.HealthcheckDomainTmpl:
+// the fully qualified template with every ${RANDOM} replaced by one random
+// string (hexadecimal, as the code documents "a random string").  It returns
+// the random string.
+func (s *sched) probeNameOK(name string) (rnd string, ok bool) {
+	t := s.tmpl()
+	if !strings.HasSuffix(t, ".") {
+		t += "."
+	}
+	parts := strings.Split(t, "${RANDOM}")
+	if len(parts) == 1 {
+		return "", name == t
+	}
+	if !strings.HasPrefix(name, parts[0]) || len(name) < len(t)-len("${RANDOM}")*(len(parts)-1) {
+		return "", false
+	}
+	rest := name[len(parts[0]):]
+	i := strings.Index(rest, parts[1])
+	if parts[1] == "" {
+		i = len(rest)
+	}
+	if i <= 0 {
+		return "", false
+	}
+	rnd = rest[:i]
+
+	return rnd, isHex(rnd) && len(rnd) <= 16 && name == strings.ReplaceAll(t, "${RANDOM}", rnd)
+}
 
 // netOf returns the configured network of an upstream of the schedule.
 func (s *sched) netOf(fb bool, idx int) string {
@@ -151,6 +260,12 @@ func (s *sched) canon() string {
 	}
 	if s.RandTmpl {
 		parts[0] += "/rnd"
+	}
+	if s.Tmpl != "" {
+		parts[0] += "/tmpl=" + s.Tmpl
+	}
+	if s.QName != "" || s.QType != 0 {
+		parts[0] += fmt.Sprintf("/q=%s:%d", s.qname(), s.qtype())
 	}
 	for _, p := range s.Ops {
 		parts = append(parts, p.String())
@@ -178,10 +293,17 @@ type world interface {
 	// classify is the oracle's own reading of a query behaviour of an upstream:
 	// reply, net, other, nil or "?" (composite: not judged by clauses a and b).
 	classify(fb bool, idx int, beh string) string
+	// wantTok is the token the client sees when the reply of this upstream
+	// (behaving like beh, a reply) is delivered: tok, or 0 for a reply without
+	// answer records.
+	wantTok(fb bool, idx int, beh string, tok int) int
 	// probeOK: a health probe of main upstream idx behaving like beh succeeds.
 	probeOK(idx int, beh string) bool
 	// probeTok is the model's token for a probe of main upstream idx behaving like beh.
 	probeTok(idx int, beh string) string
+	// takeProbes returns the health-probe requests the main upstreams received
+	// since the last call.
+	takeProbes() []*dns.Msg
 	// initLog returns the upstreams contacted during NewHandler; ok is false
 	// when the world cannot tell.
 	initLog() (l []call, ok bool)
@@ -321,6 +443,39 @@ func runSchedule(w world, s *sched) (lines, obs []string, viols []finding, nontr
 		}
 	}
 
+	// Oracle on the probes themselves (HandlerConfig.HealthcheckDomainTmpl): one
+	// A/IN question for the fully qualified template, every ${RANDOM} replaced by
+	// the same random string, the same for all upstreams of a round and a new
+	// one in every round.
+	lastRnd := ""
+	checkProbes := func(when string) {
+		var first *dns.Msg
+		rnd := ""
+		for _, q := range w.takeProbes() {
+			if len(q.Question) != 1 || q.Question[0].Qtype != dns.TypeA || q.Question[0].Qclass != dns.ClassINET ||
+				q.Response || q.Opcode != dns.OpcodeQuery || !q.RecursionDesired {
+				violate("probe-request-malformed", "%s: health probe is not a recursive A/IN query with one question: %v", when, q)
+
+				continue
+			}
+			r, ok := s.probeNameOK(q.Question[0].Name)
+			if !ok {
+				violate("probe-name-not-from-template", "%s: health probe asks for %q, template %q", when, q.Question[0].Name, s.tmpl())
+			}
+			if first != nil && first.Question[0].Name != q.Question[0].Name {
+				violate("probe-name-varies-within-round", "%s: probes of one round ask for %q and %q", when, first.Question[0].Name, q.Question[0].Name)
+			}
+			first, rnd = q, r
+		}
+		if rnd != "" && rnd == lastRnd {
+			violate("probe-random-label-repeated", "%s: the random part %q of the probe name is the one of the previous round", when, rnd)
+		}
+		if rnd != "" {
+			lastRnd = rnd
+		}
+	}
+	checkProbes("NewHandler")
+
 	healthy := func(u int) bool { return last[u] != probedFailed }
 	checkRotation := func(when string) {
 		act, _, _ := forward.VerifC17State(h)
@@ -357,7 +512,7 @@ func runSchedule(w world, s *sched) (lines, obs []string, viols []finding, nontr
 		w.arm(p.Main, p.Fb, step)
 		emain, efb := effBehs(p.Main, p.Ctx, false), effBehs(p.Fb, p.Ctx, false)
 		req := &dns.Msg{}
-		req.SetQuestion(queryName, dns.TypeA)
+		req.SetQuestion(s.qname(), s.qtype())
 		req.Id = uint16(4000 + step)
 		rw := dnsserver.NewNonWriterResponseWriter(&net.UDPAddr{IP: net.IPv4(127, 0, 0, 1), Port: 1},
 			&net.UDPAddr{IP: net.IPv4(127, 0, 0, 1), Port: 2})
@@ -387,8 +542,8 @@ func runSchedule(w world, s *sched) (lines, obs []string, viols []finding, nontr
 		got := -1 // token delivered to the client, -1 = error (SERVFAIL)
 		if resp := rw.Msg(); err == nil && resp != nil {
 			got = respTok(resp)
-			if resp.Id != req.Id || len(resp.Question) != 1 || resp.Question[0].Qtype != dns.TypeA ||
-				!strings.EqualFold(resp.Question[0].Name, queryName) {
+			if resp.Id != req.Id || len(resp.Question) != 1 || resp.Question[0].Qtype != s.qtype() ||
+				asciiLower(resp.Question[0].Name) != asciiLower(s.qname()) {
 				violate("mismatched-reply-delivered", "step %d: the client got a response that does not match its query: id %d (query %d), questions %v", step, resp.Id, req.Id, resp.Question)
 			}
 		} else if err == nil {
@@ -468,7 +623,7 @@ func runSchedule(w world, s *sched) (lines, obs []string, viols []finding, nontr
 		switch mainKind {
 		case "reply":
 			u := mainCalls[0]
-			if got != tokOf(false, u, step) || len(fbCalls) > 0 {
+			if got != w.wantTok(false, u, emain[u], tokOf(false, u, step)) || len(fbCalls) > 0 {
 				violate("main-reply-not-used", "step %d: main upstream %d replied but the client got %s (fallbacks asked: %v)", step, u, o, fbCalls)
 			}
 		case "net", "none":
@@ -482,7 +637,7 @@ func runSchedule(w world, s *sched) (lines, obs []string, viols []finding, nontr
 				f := fbCalls[0]
 				switch fbKind {
 				case "reply":
-					if got != tokOf(true, f, step) {
+					if got != w.wantTok(true, f, efb[f], tokOf(true, f, step)) {
 						violate("fallback-reply-not-used", "step %d: fallback %d replied but the client got %s", step, f, o)
 					}
 				case "net", "other", "nil":
@@ -503,7 +658,11 @@ func runSchedule(w world, s *sched) (lines, obs []string, viols []finding, nontr
 		if got >= 0 {
 			okTok := false
 			for _, c := range log {
-				okTok = okTok || got == tokOf(c.fb, c.idx, step)
+				behs := emain
+				if c.fb {
+					behs = efb
+				}
+				okTok = okTok || got == tokOf(c.fb, c.idx, step) || (c.idx < len(behs) && got == w.wantTok(c.fb, c.idx, behs[c.idx], tokOf(c.fb, c.idx, step)))
 			}
 			if !okTok {
 				violate("answer-from-nowhere", "step %d: the client got token %d which no asked upstream sent (%s)", step, got, o)
@@ -565,6 +724,7 @@ func runSchedule(w world, s *sched) (lines, obs []string, viols []finding, nontr
 				return lines, obs, viols, true
 			}
 			log := w.takeLog()
+			checkProbes(fmt.Sprintf("refresh at step %d", step))
 			var probed []int
 			for _, c := range log {
 				if !c.fb && c.probe {
@@ -704,6 +864,7 @@ func b2s(b bool) string {
 // World 1: in-memory upstreams swapped into a handler built by NewHandler.
 
 type fakeWorld struct {
+	s    *sched
 	h    *forward.Handler
 	main []string
 	fb   []string
@@ -712,6 +873,14 @@ type fakeWorld struct {
 	// during, when set, is called from inside every probe of a main upstream,
 	// before the probe's result is returned to the health-check loop.
 	during func(u int)
+	// probes are the health-probe requests received since takeProbes.
+	probes []*dns.Msg
+}
+
+func (w *fakeWorld) takeProbes() (l []*dns.Msg) {
+	l, w.probes = w.probes, nil
+
+	return l
 }
 
 type fakeUps struct {
@@ -736,8 +905,11 @@ var (
 )
 
 func (f *fakeUps) Exchange(ctx context.Context, req *dns.Msg) (resp *dns.Msg, nw forward.Network, err error) {
-	isProbe := len(req.Question) == 1 && isProbeName(req.Question[0].Name)
+	isProbe := len(req.Question) == 1 && f.w.s.isProbeQ(req.Question[0])
 	f.w.log = append(f.w.log, call{fb: f.fb, idx: f.idx, probe: isProbe})
+	if isProbe {
+		f.w.probes = append(f.w.probes, req)
+	}
 	behs := f.w.main
 	if f.fb {
 		behs = f.w.fb
@@ -827,6 +999,8 @@ func (w *fakeWorld) classify(_ bool, _ int, beh string) string {
 	}
 }
 
+func (w *fakeWorld) wantTok(_ bool, _ int, _ string, tok int) int { return tok }
+
 func (w *fakeWorld) probeOK(_ int, beh string) bool { return beh == "ok" }
 
 // probeTok: what Exchange gives the probe (the model applies checkUpstream).
@@ -862,7 +1036,7 @@ func dummyConfs(n int) (confs []*forward.UpstreamPlainConfig) {
 }
 
 func newFakeWorld(s *sched) *fakeWorld {
-	w := &fakeWorld{}
+	w := &fakeWorld{s: s}
 	var initDur time.Duration
 	if s.Init != nil {
 		// The initial health check meets the dummy configuration: nothing
@@ -941,6 +1115,7 @@ func genSched(rng *rand.Rand, qm, qf, pm []string, maxMain, maxFb, length int, e
 
 		return p
 	}
+	genQuestion(rng, s)
 	if extras {
 		s.RandTmpl = rng.IntN(3) == 0
 		if rng.IntN(6) == 0 {
@@ -992,6 +1167,34 @@ func genSched(rng *rand.Rand, qm, qf, pm []string, maxMain, maxFb, length int, e
 	}
 
 	return s
+}
+
+var (
+	schedNames = []string{".", ".", "a.", "Ab.", "WWW.ExAmPlE.COM.", "xyz.", "a\\128b.c.", "_dmarc.ab.",
+		strings.Repeat("a", 63) + "." + strings.Repeat("b", 63) + "." + strings.Repeat("c", 63) + "." + strings.Repeat("d", 61) + "."}
+	schedTypes = []uint16{dns.TypeAAAA, dns.TypeNS, dns.TypeTXT, dns.TypeANY, dns.TypeHTTPS, dns.TypeSOA}
+	schedTmpls = []string{"root", "root", "rndonly", "rnd2", "rndmid", "upper", "fqdn"}
+)
+
+// genQuestion gives half of the schedules another question than "ab. A" (the
+// root, one label, mixed case, escapes, a maximal name; other types) and a third
+// another probe template; the query name is kept apart from the probe names.
+func genQuestion(rng *rand.Rand, s *sched) {
+	if rng.IntN(3) == 0 {
+		s.Tmpl = schedTmpls[rng.IntN(len(schedTmpls))]
+	}
+	if rng.IntN(2) == 0 {
+		s.QName = schedNames[rng.IntN(len(schedNames))]
+		if rng.IntN(2) == 0 {
+			s.QType = schedTypes[rng.IntN(len(schedTypes))]
+		}
+	}
+	switch {
+	case s.Tmpl == "root" && s.QName == ".":
+		s.QName = "xyz."
+	case s.Tmpl == "rndonly" && (s.QName == "" || s.QName == "a."):
+		s.QName = "xyz."
+	}
 }
 
 // sameObs compares the model's answer with the implementation's observation;
@@ -1328,7 +1531,7 @@ func spreadCampaign(o *hlib.Opts, r *hlib.Result) {
 			for i := 0; i < queries; i++ {
 				w.arm(allR, []string{"r"}, i)
 				req := &dns.Msg{}
-				req.SetQuestion(queryName, dns.TypeA)
+				req.SetQuestion(s.qname(), s.qtype())
 				rw := dnsserver.NewNonWriterResponseWriter(&net.UDPAddr{IP: net.IPv4(127, 0, 0, 1), Port: 1},
 					&net.UDPAddr{IP: net.IPv4(127, 0, 0, 1), Port: 2})
 				_ = h.ServeDNS(context.Background(), rw, req)
@@ -1386,6 +1589,45 @@ func spreadCampaign(o *hlib.Opts, r *hlib.Result) {
 		w.close()
 		r.Traces++
 	}
+}
+
+// saturationCampaign runs the code at the point an earlier assumption excluded:
+// the largest configurable backoff (and the smallest).  An upstream that never
+// failed a probe carries the zero time; time.Since of it saturates at the
+// largest Duration and the comparison with the backoff is strict, so it must be
+// probed and stay in rotation whatever the backoff is.
+func saturationCampaign(r *hlib.Result) {
+	for _, b := range []time.Duration{1<<63 - 1, 1<<63 - 2, -1 << 63, 0, 1} {
+		s := &sched{NMain: 2, NFb: 1}
+		w := &fakeWorld{s: s}
+		w.h = forward.NewHandler(&forward.HandlerConfig{
+			Logger:                     discard,
+			HealthcheckDomainTmpl:      probeDomain,
+			UpstreamsAddresses:         dummyConfs(2),
+			FallbackAddresses:          dummyConfs(1),
+			HealthcheckBackoffDuration: b,
+		})
+		forward.VerifC17SwapUpstreams(w.h, []forward.Upstream{&fakeUps{w: w, idx: 0}, &fakeUps{w: w, idx: 1}},
+			[]forward.Upstream{&fakeUps{w: w, fb: true, idx: 0}})
+		for round := 0; round < 3; round++ {
+			w.arm([]string{"ok", "ok"}, nil, round)
+			err := w.h.Refresh(context.Background())
+			probed := map[int]bool{}
+			for _, c := range w.takeLog() {
+				probed[c.idx] = probed[c.idx] || (c.probe && !c.fb)
+			}
+			act, _, _ := forward.VerifC17State(w.h)
+			if err != nil || !probed[0] || !probed[1] || len(act) != 2 {
+				r.Violate("never-failed-main-in-backoff",
+					fmt.Sprintf("backoff %d ns, round %d: main upstreams that never failed a probe: probed %v, active %v, Refresh error %v", b, round, probed, act, err),
+					map[string]any{"campaign": "saturation", "backoff_ns": int64(b), "round": round})
+			}
+			r.Evaluations++
+		}
+		r.Count("saturation.backoff_extremes")
+		w.close()
+	}
+	r.Traces++
 }
 
 func enumerate(alpha []op, depth int, f func([]op)) {
